@@ -6,12 +6,14 @@ From LinDBV.C19 Require Import Model.
    cbs: for each callback invocation, true = nil error; completed: number of stages whose Complete() ran;
    failed_seen: some executed stage returned an error or panicked; unfinished_at_cb: stages started but not
    completed when the (first) callback fired; any_panic: some executed stage panicked *)
-Record obs := { cbs : list bool; completed : nat; failed_seen : bool; unfinished_at_cb : nat; any_panic : bool; hang : bool }.
+Record obs := { cbs : list bool; completed : nat; failed_seen : bool; unfinished_at_cb : nat; any_panic : bool; hang : bool;
+                tails : nat (* plan nodes after a stage's main node that ran *) }.
 
 Definition bools_eqb (a b : list bool) : bool :=
   (length a =? length b) && forallb (fun '(x, y) => Bool.eqb x y) (combine a b).
 
 Definition check (root : stage) (o : obs) : nat * nat :=
   let s := drain (size_acts (body root) + 2) (init root) in
-  (if bools_eqb (callbacks s) (cbs o) && (finished s =? completed o) && Bool.eqb (negb (failed s)) (negb (failed_seen o)) then 0 else 1,
+  (if bools_eqb (callbacks s) (cbs o) && (finished s =? completed o) && Bool.eqb (negb (failed s)) (negb (failed_seen o))
+      && (tails_of root =? tails o) then 0 else 1,
    if negb (hang o) && bools_eqb (cbs o) [negb (failed_seen o)] && ((unfinished_at_cb o =? 0) || any_panic o) then 0 else 1).
